@@ -49,6 +49,8 @@ type node struct {
 	durEnts     []pb.Entry   // if volEnts: the log as of the last sync
 	volCritical bool         // the volatile suffix holds a term or vote change, or entries
 	volExternal bool         // ... and messages were sent after that was written
+	ansTerm     uint64       // term and vote the node last sent messages under: survives
+	ansVote     uint64       // every crash, for the vote-once check
 
 	// volatile application state
 	cs        pb.ConfState // configuration as of appCursor
@@ -436,7 +438,7 @@ func (s *sim) powerFail(n *node, stepName string) {
 	s.hash(0xC1, n.id, n.durHS.Term, n.durHS.Vote, n.durHS.Commit)
 	s.logf("  node %d loses its unsynced writes: hard state %d/%d/%d -> %d/%d/%d", n.id, n.hs.Term, n.hs.Vote, n.hs.Commit,
 		n.durHS.Term, n.durHS.Vote, n.durHS.Commit)
-	if n.volExternal {
+	if n.volExternal && !s.cfg.LenientSync {
 		switch {
 		case n.durHS.Term != n.hs.Term:
 			s.fail("hardstate/term-regressed", "node %d answered messages in term %d, but that term came in a Ready with MustSync=false and a crash lost it: the node is back in term %d",
@@ -468,8 +470,11 @@ func (s *sim) powerFail(n *node, stepName string) {
 }
 
 func (s *sim) send(n *node, msgs []pb.Message) {
-	if n.volCritical && len(msgs) > 0 {
-		n.volExternal = true
+	if len(msgs) > 0 {
+		if n.volCritical {
+			n.volExternal = true
+		}
+		n.ansTerm, n.ansVote = n.hs.Term, n.hs.Vote
 	}
 	for i := range msgs {
 		m := msgs[i]
